@@ -72,6 +72,15 @@ func cancelProgram(kind string, r *rand.Rand) *InitSpec {
 	for i, b := range code {
 		is.Cells = append(is.Cells, [2]int{0x0100 + i, b})
 	}
+	// a device keeps requesting a maskable interrupt that is never taken: interrupts are disabled (none of these
+	// programs executes EI), or the mode value is not one of 0..2
+	switch r.Intn(6) {
+	case 0, 1:
+		is.Pend = []int{1, 0xff}
+	case 2:
+		is.Pend = []int{1, 0xc7}
+		is.R[24], is.R[26] = 1, 3
+	}
 	return is
 }
 
@@ -332,8 +341,9 @@ func cmdCancel(args []string) {
 			if !rs.BPNil {
 				bp = rs.BP
 			}
-			fmt.Fprintf(w, `{"e":"r","bp":%s,"sched":[],"bpswap":[],"cancel":%d,"err":"%s","nacc":%d,"r":%s,"h":%d,"md":%s,"pio":%s,"hc":[0,0],"pend":[]}`+"\n",
-				jInts(bp), rs.Cancel, errs, m.Acc, jInts(rg[:]), b2i(m.CPU.HALT), jPairs(m.Mem.Diff()), jTriples(m.IO.Log))
+			fmt.Fprintf(w, `{"e":"r","bp":%s,"sched":[],"bpswap":[],"cancel":%d,"err":"%s","nacc":%d,"r":%s,"h":%d,"md":%s,"pio":%s,"hc":[0,0],"pend":%s}`+"\n",
+				jInts(bp), rs.Cancel, errs, m.Acc, jInts(rg[:]), b2i(m.CPU.HALT), jPairs(m.Mem.Diff()), jTriples(m.IO.Log),
+				jInts(PendEnc(m.CPU.Interrupt)))
 		}
 		// (d) goroutine accounting BEFORE the caller's context is released
 		if n, ok := settle(base, 2*time.Second); !ok {
